@@ -110,6 +110,18 @@ class Model:
         self._resolve_imports()
         self._index()
         self._callgraph = None
+        self.normalise_stats = {}
+        if not os.environ.get('PV_NO_NORMALISE'):
+            from . import normalise
+            normalise.normalise(self, self.normalise_stats)
+            # re-index: statement lists changed
+            self.classes = {}
+            self.functions = {}
+            for m in self.modules.values():
+                m.classes = {}
+                m.functions = {}
+            self._index()
+            self._callgraph = None
 
     # ---- loading -------------------------------------------------------
     def _load(self):
